@@ -23,6 +23,11 @@ static std::string obsJson(const Obs& o)
 	       ",\"b8\":" + vj::codes(o.b8) + ",\"up\":" + vj::codes(o.up) + ",\"lo\":" + vj::codes(o.lo) + ",\"dw\":" + ints(o.dw) + "," + kv("wl", o.wlen) + "}";
 }
 
+// open finding CountTruncatedLead (--avoid): count() must not be called on a string that ends in the lead byte of a
+// two-byte sequence; such inputs are not generated / are counted as skipped
+static bool g_avoidLead = false;
+static bool hazardous(const std::string& s) { return g_avoidLead && !s.empty() && ((unsigned char)s[s.size() - 1] & 0xe0) == 0xc0; }
+
 static void die(const std::string& what, const std::string& s)
 {
 	fprintf(stderr, "c08_record: %s on input %s\n", what.c_str(), vj::codes(s).c_str());
@@ -128,6 +133,7 @@ int main(int argc, char** argv)
 	}
 	Rng rng(a.seed);
 	Log log(a.out);
+	g_avoidLead = a.avoid.count("CountTruncatedLead") != 0;
 	log.line("{\"e\":\"reset\"}");
 	if (a.mode == 0)
 	{
@@ -149,6 +155,7 @@ int main(int argc, char** argv)
 		for (long ev = 0; ev < a.events; ev++)
 		{
 			std::string s = randomBytes(rng, 300);
+			if (hazardous(s)) s += 'k';
 			int pl = (int)(ev % 3);
 			Obs o = observe(s, pl);
 			if (!o.err.empty()) die(o.err, s);
@@ -166,12 +173,14 @@ int main(int argc, char** argv)
 		for (int b0 = 1; b0 <= 255; b0++)
 		{
 			if (first.empty() ? b0 % shardN != shardK : !first.count(b0)) continue;
-			long count = 0, neq = 0;
+			long count = 0, neq = 0, skipped = 0;
 			long mx[8] = { -1000, -1000, -1000, -1000, -1000, -1000, -1000, -1000 };
 			std::string s((size_t)len, (char)1);
 			s[0] = (char)b0;
 			for (;;)
 			{
+				if (hazardous(s)) skipped++;
+				else
 				for (int pl = 0; pl < 3; pl++)
 				{
 					if (full)
@@ -188,7 +197,7 @@ int main(int argc, char** argv)
 					std::string t = flipAscii(s);
 					if (eqNocase(s, t, pl) != (o.lo == lowerOf(t))) neq++;
 				}
-				count++;
+				if (!hazardous(s)) count++;
 				// next string with the same first byte, bytes 1..255
 				int p = len - 1;
 				while (p >= 1 && (unsigned char)s[(size_t)p] == 255) { s[(size_t)p] = (char)1; p--; }
@@ -196,7 +205,7 @@ int main(int argc, char** argv)
 				s[(size_t)p] = (char)((unsigned char)s[(size_t)p] + 1);
 			}
 			if (!full)
-				log.line("{\"e\":\"agg\"," + kv("b0", b0) + "," + kv("len", len) + "," + kv("count", count) + ",\"mx\":{" + kv("n", mx[0]) + "," + kv("cs", mx[1]) + "," +
+				log.line("{\"e\":\"agg\"," + kv("b0", b0) + "," + kv("len", len) + "," + kv("count", count) + "," + kv("skipped", skipped) + ",\"mx\":{" + kv("n", mx[0]) + "," + kv("cs", mx[1]) + "," +
 				         kv("c32", mx[2]) + "," + kv("it", mx[3]) + "," + kv("w", mx[4]) + "," + kv("b8", mx[5]) + "," + kv("up", mx[6]) + "," + kv("lo", mx[7]) + "}," + kv("neq", neq) + "}");
 		}
 	}
